@@ -8,7 +8,7 @@ namespace Bpp.Discretize
 open Bpp
 
 theorem TINY_pos : (0 : ℝ) < (Constants.TINY : ℝ) := by simp [Constants.TINY]
-theorem VERY_BIG_pos : (0 : ℝ) < (VERY_BIG : ℝ) := by simp [VERY_BIG]
+theorem VERY_BIG_pos : (0 : ℝ) < (VERY_BIG : ℝ) := by simp [VERY_BIG, Gen.VERY_BIG]
 
 theorem geC_zero_iff (v : ℝ) : (geC (0 : ℝ)).isCorrect v = true ↔ 0 ≤ v := by
   simp [geC, Interval.halfLine, Interval.isCorrect, Interval.isCorrectB, Bound.geb, Bound.leb, Bound.ltb]
